@@ -1,17 +1,314 @@
-(* C17 — Krylov solvers report true residuals and agree across partitions.  (under construction) *)
-From Raptor Require Import Base.Sums Krylov.KDefs Krylov.KProofs.
+(* C17 — Krylov solvers report true residuals and agree across partitions.
+   Property-level theorems only; each is closed by a lemma of Krylov/{KProofs,KCsr,KQc}.v.
+
+   Model (Krylov/KDefs.v): CG of cg.cpp / par_cg.cpp, BiCGStab of bicgstab.cpp / par_bicgstab.cpp, PCG of par_cg.cpp,
+   Vector / ParVector inner_product, norm(2), axpy, scale.  Norms are carried as squares (no sqrt): the loop test
+   `norm_r > tol` is the comparison of the squares.  A division by zero (a non-finite value in the C++) makes the
+   step function return None, the run then ends in `Broke`.  `run cont step fuel s` is the while-loop with
+   iteration limit `fuel`; `iter_n step k s` is the k-th iterate of the loop body.
+   The operator is an abstract linear map `mulA` with `residA x b = b - mulA x` (C17_csr_operator: the CSR kernels
+   of Sparse/Defs.v used for extraction satisfy these hypotheses; the distributed SpMV is C02's subject). *)
+From Coq Require Import QArith Qcanon Field.
+From Raptor Require Import Base.Sums Sparse.Defs Krylov.KDefs Krylov.KProofs Krylov.KCsr Extract.Inst Extract.Inst_krylov Krylov.KQc.
+Local Open Scope nat_scope.
 
 Section C17.
-Variable St : Type.
-Variable cont : St -> bool.
-Variable step : St -> option St.
+Variable F : Type.
+Variables (zero one : F) (add mul sub : F -> F -> F) (opp : F -> F) (div : F -> F -> F) (inv : F -> F).
+Variable Fth : field_theory zero one add mul sub opp div inv (@eq F).
+Variable tiny : F -> bool.                 (* fabs(v) <= zero_tol *)
+Variables (eqb ltb : F -> F -> bool).
+Hypothesis eqb_spec : forall a c, eqb a c = true <-> a = c.
 
-Theorem C17_loop_stops_at_first (fuel : nat) (s s' : St) :
+(* an ordered field *)
+Variable le : F -> F -> Prop.
+Hypothesis le_refl : forall a, le a a.
+Hypothesis le_antisym : forall a c, le a c -> le c a -> a = c.
+Hypothesis le_trans : forall a c d, le a c -> le c d -> le a d.
+Hypothesis le_total : forall a c, le a c \/ le c a.
+Hypothesis le_add : forall a c d, le a c -> le (add a d) (add c d).
+Hypothesis le_mul : forall a c, le zero a -> le zero c -> le zero (mul a c).
+Hypothesis ltb_spec : forall a c, ltb a c = true <-> flt F le a c.
+
+Notation axpy := (axpy F add mul).
+Notation vsub := (vsub F sub).
+Notation inner := (inner F zero add mul).
+Notation norm2sq := (norm2sq F zero add mul tiny).
+Notation zeros k := (repeat zero k).
+Notation sops := (seq_ops F zero add mul tiny).
+
+(* the linear system *)
+Variable n : nat.
+Variable mulA : list F -> list F.
+Variable residA : list F -> list F -> list F.
+Variable b : list F.
+Hypothesis Hb : length b = n.
+Hypothesis mulA_len : forall x, length x = n -> length (mulA x) = n.
+Hypothesis mulA_lin : forall x p a, length x = n -> length p = n -> mulA (axpy x p a) = axpy (mulA x) (mulA p) a.
+Hypothesis residA_spec : forall x, length x = n -> residA x b = vsub b (mulA x).
+Variable tol : F.
+
+Notation cgstep := (cg_step F zero one mul opp div eqb ltb mulA residA sops b).
+Notation cginit := (cg_init F residA sops b).
+Notation cgrun := (cg_run F zero one mul opp div eqb ltb mulA residA sops b tol).
+Notation cgcont x0 := (cg_cont F ltb (cg_thr F zero mul eqb residA sops b tol x0)).
+Notation bistep := (bi_step F zero one mul opp div eqb mulA sops).
+Notation biinit := (bi_init F residA sops b).
+Notation birun := (bi_run F zero one mul opp div eqb ltb mulA residA sops b tol).
+Notation bicont x0 := (bi_cont F ltb (bi_thr F zero mul eqb residA sops b tol x0)).
+(* squared true residuals: 2-norm, and Vector::norm(2) with its zero_tol guard *)
+Notation true_res_sq := (true_res_sq F zero add mul sub mulA b).
+Notation true_res_nsq := (true_res_nsq F zero add mul sub tiny mulA b).
+
+(* ---------- the loop ---------- *)
+(* a bounded while-loop returns the K-th iterate of its body, K = the first index whose state fails the loop
+   condition, or the limit *)
+Theorem C17_loop_stops_at_first (St : Type) (cont : St -> bool) (step : St -> option St) (fuel : nat) (s s' : St) :
   run cont step fuel s = Done s' ->
   exists K, K <= fuel /\ iter_n step K s = Some s' /\
             (forall j, j < K -> exists sj, iter_n step j s = Some sj /\ cont sj = true) /\
             (K = fuel \/ cont s' = false).
 Proof. apply run_done_spec. Qed.
+
+(* ---------- CG ---------- *)
+(* Whatever way the loop ends (normally or by a division by zero) the returned state is the K-th iterate, K <= max_iter,
+   every earlier iterate failed the tolerance, a normal end means K = max_iter or the tolerance is met; entry j of the
+   returned history is ||b - A x_j||^2 for every j <= K, its last entry belongs to the returned iterate, and it has
+   K+1 entries. *)
+Theorem C17_cg_reports_true_residuals_and_stops_first max_iter x0 s' : length x0 = n ->
+  cgrun max_iter x0 = Done s' \/ cgrun max_iter x0 = Broke s' ->
+  exists K, K <= max_iter /\ iter_n cgstep K (cginit x0) = Some s' /\
+    (forall j, j < K -> exists sj, iter_n cgstep j (cginit x0) = Some sj /\ cgcont x0 sj = true) /\
+    (cgrun max_iter x0 = Done s' -> K = max_iter \/ cgcont x0 s' = false) /\
+    (cgrun max_iter x0 = Broke s' -> cgcont x0 s' = true /\ cgstep s' = None) /\
+    (forall j, j <= K -> exists sj, iter_n cgstep j (cginit x0) = Some sj /\
+        nth (cg_iter sj) (cg_hist s') zero = true_res_sq (cg_x sj)) /\
+    last (cg_hist s') zero = true_res_sq (cg_x s') /\ length (cg_hist s') = S (cg_iter s').
+Proof. intros. eapply cg_run_spec; eauto. Qed.
+
+(* start at the exact solution (in particular b = 0, x0 = 0): immediate return, nothing divided *)
+Theorem C17_cg_exact_start_returns_immediately max_iter x0 : length x0 = n -> mulA x0 = b ->
+  cgrun max_iter x0 = Done (cginit x0) /\ cg_x (cginit x0) = x0 /\ cg_hist (cginit x0) = [zero] /\ cg_iter (cginit x0) = 0.
+Proof. intros. eapply cg_exact_start; eauto. Qed.
+
+(* SPD operator with solution xs *)
+Variable xs : list F.
+Hypothesis Hxs : length xs = n.
+Hypothesis Hsol : mulA xs = b.
+Hypothesis mulA_sym : forall u v, length u = n -> length v = n -> inner (mulA u) v = inner u (mulA v).
+Hypothesis SPD : forall v, length v = n -> v <> zeros n -> flt F le zero (inner (mulA v) v).
+Notation energy := (energy F zero add mul sub mulA xs).       (* ||xs - x||_A^2 *)
+Notation cg_inv := (cg_inv F zero add mul sub n mulA b).       (* r = b - A x, rr = <r,r>, <r,p> = <r,r>, history *)
+
+(* on SPD systems CG never divides by zero and never reports an indefinite matrix: the loop always ends normally,
+   in a state satisfying the invariant *)
+Theorem C17_cg_spd_never_breaks max_iter x0 : length x0 = n ->
+  exists s', cgrun max_iter x0 = Done s' /\ cg_inv s' /\ cg_indef s' = false.
+Proof. intros. eapply cg_run_total; eauto. Qed.
+
+(* ||e_{k+1}||_A^2 = ||e_k||_A^2 - <r_k,r_k>^2 / <A p_k, p_k>  (rests on the invariant <r_k,p_k> = <r_k,r_k>) *)
+Theorem C17_cg_energy_identity s s' : cg_inv s -> cgstep s = Some s' -> cg_indef s' = false ->
+  inner (mulA (cg_p s)) (cg_p s) <> zero /\
+  energy (cg_x s') = sub (energy (cg_x s)) (div (mul (cg_rr s) (cg_rr s)) (inner (mulA (cg_p s)) (cg_p s))).
+Proof. intros. eapply cg_energy_identity; eauto. Qed.
+
+Theorem C17_cg_energy_monotone x0 s s' : cg_inv s -> cgcont x0 s = true -> cgstep s = Some s' ->
+  le (energy (cg_x s')) (energy (cg_x s)).
+Proof. intros Hi Hc Hs. eapply cg_energy_monotone; eauto. eapply cg_thr_nonneg; eauto. Qed.
+
+(* ---------- BiCGStab (seqform = true: bicgstab.cpp, false: par_bicgstab.cpp) ---------- *)
+Theorem C17_bicgstab_reports_true_residuals_and_stops_first seqform max_iter x0 s' : length x0 = n ->
+  let rstar := bi_r (biinit x0) in
+  birun seqform max_iter x0 = Done s' \/ birun seqform max_iter x0 = Broke s' ->
+  exists K, K <= max_iter /\ iter_n (bistep seqform rstar) K (biinit x0) = Some s' /\
+    (forall j, j < K -> exists sj, iter_n (bistep seqform rstar) j (biinit x0) = Some sj /\ bicont x0 sj = true) /\
+    (birun seqform max_iter x0 = Done s' -> K = max_iter \/ bicont x0 s' = false) /\
+    (birun seqform max_iter x0 = Broke s' -> bicont x0 s' = true /\ bistep seqform rstar s' = None) /\
+    (forall j, j <= K -> exists sj, iter_n (bistep seqform rstar) j (biinit x0) = Some sj /\
+        nth (bi_iter sj) (bi_hist s') zero = true_res_nsq (bi_x sj)) /\
+    last (bi_hist s') zero = true_res_nsq (bi_x s') /\ length (bi_hist s') = S (bi_iter s').
+Proof. intros. eapply bi_run_spec; eauto. Qed.
+
+Theorem C17_bicgstab_exact_start_returns_immediately seqform max_iter x0 : length x0 = n -> mulA x0 = b ->
+  birun seqform max_iter x0 = Done (biinit x0) /\ bi_x (biinit x0) = x0 /\ bi_hist (biinit x0) = [zero] /\ bi_iter (biinit x0) = 0.
+Proof. intros. eapply bi_exact_start; eauto. Qed.
+
+(* when the half step converges exactly (s = r - alpha A p = 0) the iteration divides 0 by 0: non-finite output *)
+Theorem C17_bicgstab_halfstep_breaks seqform rstar s alpha p Ap :
+  bi_half F zero one mul opp div eqb mulA sops rstar s = Some (alpha, p, Ap, zeros n) ->
+  bistep seqform rstar s = None.
+Proof. intros. eapply bi_halfstep_breaks; eauto. Qed.
+
+(* Vector::norm(2) is the 2-norm when no entry falls into the zero_tol window *)
+Theorem C17_guarded_norm_is_2norm v : (forall a, In a v -> tiny a = true -> a = zero) -> norm2sq v = inner v v.
+Proof. intros. eapply norm2sq_exact; eauto. Qed.
+
+(* ---------- PCG (par_cg.cpp), preconditioner = any map prec with prec 0 = 0 ---------- *)
+Variable prec : list F -> list F.
+Variable ztol2 : F.
+Hypothesis prec_len : forall r, length r = n -> length (prec r) = n.
+Notation pcstep := (pcg_step F zero one mul opp div eqb ltb mulA residA sops b tol prec ztol2).
+Notation pcinit := (pcg_init F residA sops b prec).
+Notation pcrun := (pcg_run F zero one mul opp div eqb ltb mulA residA sops b tol prec ztol2).
+Notation pcg_inv := (pcg_inv F zero add mul sub div tiny ltb n mulA b tol prec ztol2).
+
+(* pcg_inv s: r = b - A x; the last reported value is <r, M^-1 r> (entry 0) resp. <r, M^-1 r>/<b, M^-1 b> of the
+   current iterate; `break` was taken iff that value passes the test next_inner < tol' *)
+Theorem C17_pcg_reports_and_stops_first max_iter x0 s' : length x0 = n ->
+  pcrun max_iter x0 = Done s' \/ pcrun max_iter x0 = Broke s' ->
+  pcg_inv s' /\
+  exists K, K <= max_iter /\ iter_n pcstep K (pcinit x0) = Some s' /\
+    (forall j, j < K -> exists sj, iter_n pcstep j (pcinit x0) = Some sj /\ pcg_inv sj /\ pcg_cont F sj = true) /\
+    (pcrun max_iter x0 = Done s' -> K = max_iter \/ pcg_cont F s' = false).
+Proof. intros. eapply pcg_run_spec; eauto. Qed.
+
+(* PCG has no initial convergence test: from the exact solution (e.g. b = 0, x0 = 0) every run with max_iter >= 1
+   divides 0 by 0 in the first iteration *)
+Theorem C17_pcg_exact_start_breaks max_iter x0 : prec (zeros n) = zeros n -> length x0 = n -> mulA x0 = b ->
+  pcrun (S max_iter) x0 = Broke (pcinit x0).
+Proof. intros. eapply pcg_exact_start_breaks; eauto. Qed.
+
+(* ---------- distributed = sequential, for every partition (list of local sizes, zeros allowed) ---------- *)
+Variable parts : list nat.
+Hypothesis Hparts : psum parts = n.
+Notation dops := (dist_ops F zero add mul tiny parts).
+
+Theorem C17_dist_kernels_are_those_of_the_assembled_vector u v a : length u = n -> length v = n ->
+  dinner F zero add mul parts u v = inner u v /\
+  dnorm2sq F zero add mul tiny parts v = norm2sq v /\
+  daxpy F add mul parts u v a = axpy u v a /\
+  dscale F mul parts u a = vscale F mul u a.
+Proof.
+  intros Hu Hv. split; [eapply dI; eauto|]. split; [eapply dN; eauto|]. split; [eapply dA; eauto|eapply dS; eauto].
+Qed.
+
+Theorem C17_dist_cg_is_seq_cg max_iter x0 : length x0 = n ->
+  cg_run F zero one mul opp div eqb ltb mulA residA dops b tol max_iter x0 = cgrun max_iter x0.
+Proof. intros. eapply cg_run_dist; eauto. Qed.
+
+Theorem C17_dist_bicgstab_is_seq_bicgstab seqform max_iter x0 : length x0 = n ->
+  bi_run F zero one mul opp div eqb ltb mulA residA dops b tol seqform max_iter x0 = birun seqform max_iter x0.
+Proof. intros. eapply bi_run_dist; eauto. Qed.
+
+Theorem C17_dist_pcg_is_pcg_on_assembled_vectors max_iter x0 : length x0 = n ->
+  pcg_run F zero one mul opp div eqb ltb mulA residA dops b tol prec ztol2 max_iter x0 = pcrun max_iter x0.
+Proof. intros. eapply pcg_run_dist; eauto. Qed.
+
+(* ---------- non-finite values (xval = Fin q | NaNv) ---------- *)
+Theorem C17_norm_and_inner_product_nonfinite (u v : list (xval F)) ps :
+  (length u = length v -> In NaNv u \/ In NaNv v -> xinner F zero add mul u v = NaNv) /\
+  (In NaNv v -> xnorm2sq F zero add mul tiny v = NaNv) /\
+  (length u = psum ps -> length v = psum ps -> In NaNv u \/ In NaNv v -> xdinner F zero add mul ps u v = NaNv) /\
+  (length v = psum ps -> In NaNv v -> xdnorm2sq F zero add mul tiny ps v = NaNv) /\
+  (forall t, xgt F ltb NaNv t = false).
+Proof.
+  split; [apply xinner_nan|]. split; [apply xnorm2sq_nan|]. split; [apply xdinner_nan|]. split; [apply xdnorm2sq_nan|].
+  intros; reflexivity.
+Qed.
+
+Theorem C17_norm_and_inner_product_finite (u v : list F) ps :
+  xinner F zero add mul (map Fin u) (map Fin v) = Fin (inner u v) /\
+  xnorm2sq F zero add mul tiny (map Fin v) = Fin (norm2sq v) /\
+  xdnorm2sq F zero add mul tiny ps (map Fin v) = Fin (dnorm2sq F zero add mul tiny ps v).
+Proof. split; [apply xinner_fin|]. split; [apply xnorm2sq_fin|apply xdnorm2sq_fin]. Qed.
+
+(* ---------- the operator used for extraction ---------- *)
+Theorem C17_csr_operator (A : csr F) x p a bb :
+  length (csr_spmv F zero add mul A x) = length (csr_rows A) /\
+  (length x = length p -> csr_spmv F zero add mul A (axpy x p a) = axpy (csr_spmv F zero add mul A x) (csr_spmv F zero add mul A p) a) /\
+  (length bb = length (csr_rows A) -> csr_residual F zero mul sub A x bb = vsub bb (csr_spmv F zero add mul A x)).
+Proof.
+  split; [apply csr_spmv_length|]. split; [eapply csr_spmv_linear; eauto|eapply csr_residual_spec; eauto].
+Qed.
+
 End C17.
 
+(* ---------- statements about the executed instance (Qc) ---------- *)
+(* refuted: "BiCGStab returns finite values on every non-singular diagonally dominant system": 2 x = 1 from x0 = 0,
+   sequential class and distributed (partition 0,1) *)
+Theorem C17_bicgstab_halfstep_breakdown_refuted :
+  exists (A : csr Qc) (b x0 : list Qc) (tol : Qc) (max_iter : nat),
+    A = A1 /\
+    is_broke (q_bi_run A q_seq_ops b tol true max_iter x0) = true /\
+    is_broke (q_bi_run A (q_dist_ops [0; 1]) b tol false max_iter x0) = true.
+Proof.
+  exists A1, (qv [1%Z]), (qv [0%Z]), tol10, 10. split; [reflexivity|]. exact bicgstab_halfstep_example.
+Qed.
+
+(* refuted: "PCG started at the exact solution returns immediately without producing non-finite values" *)
+Theorem C17_pcg_exact_start_refuted :
+  exists (A : csr Qc) (M : list (list Qc)) (b x0 : list Qc) (tol : Qc) (max_iter : nat),
+    q_csr_spmv A x0 = b /\ is_broke (q_pcg_run A M (q_dist_ops [1]) b tol max_iter x0) = true.
+Proof.
+  exists A1, [[Q2Qc 1%Q]], (qv [2%Z]), (qv [1%Z]), tol10, 5. split; [reflexivity|]. exact pcg_exact_start_example.
+Qed.
+
+(* the hypotheses of section C17 are jointly satisfiable: Qc, n = 1, A = [2] in CSR form *)
+Example C17_hypotheses_nonvacuous :
+  field_theory 0%Qc 1%Qc Qcplus Qcmult Qcminus Qcopp Qcdiv Qcinv eq /\
+  (forall a c, Qc_eqb a c = true <-> a = c) /\ (forall a c, Qc_ltb a c = true <-> flt Qc Qcle a c) /\
+  (forall a c, Qcle a c \/ Qcle c a) /\ (forall a c d, Qcle a c -> Qcle (a + d) (c + d))%Qc /\
+  (forall a c, Qcle 0%Qc a -> Qcle 0%Qc c -> Qcle 0%Qc (a * c)%Qc) /\
+  (forall x, length x = 1 -> length (q_csr_spmv A1 x) = 1) /\
+  (forall x p a, length x = 1 -> length p = 1 ->
+     q_csr_spmv A1 (axpy Qc Qcplus Qcmult x p a) = axpy Qc Qcplus Qcmult (q_csr_spmv A1 x) (q_csr_spmv A1 p) a) /\
+  (forall x bb, length x = 1 -> length bb = 1 -> q_csr_residual A1 x bb = vsub Qc Qcminus bb (q_csr_spmv A1 x)) /\
+  (forall u v, length u = 1 -> length v = 1 -> q_inner (q_csr_spmv A1 u) v = q_inner u (q_csr_spmv A1 v)) /\
+  (forall v, length v = 1 -> v <> repeat 0%Qc 1 -> flt Qc Qcle 0%Qc (q_inner (q_csr_spmv A1 v) v)).
+Proof.
+  split; [exact Qcft|]. split; [exact Qc_eqb_spec|]. split; [exact Qc_ltb_spec|]. split; [exact Qcle_total|].
+  split; [exact Qcle_add|]. split; [exact Qcle_mul|].
+  split; [intros x _; apply (csr_spmv_length Qc 0%Qc Qcplus Qcmult A1)|].
+  split; [intros x p a Hx Hp; apply (csr_spmv_linear Qc 0%Qc 1%Qc Qcplus Qcmult Qcminus Qcopp Qcdiv Qcinv Qcft); congruence|].
+  split; [intros x bb Hx Hbb; apply (csr_residual_spec Qc 0%Qc 1%Qc Qcplus Qcmult Qcminus Qcopp Qcdiv Qcinv Qcft); exact Hbb|].
+  split; [exact A1_sym|exact A1_spd].
+Qed.
+
+(* the conclusions are exercised by concrete runs of the extracted instance *)
+Example C17_cg_run_nonvacuous :
+  match q_cg_run A2 q_seq_ops (qv [1; 2]%Z) tol10 10 (qv [0; 0]%Z) with
+  | Done s => veqb (cg_x s) [Q2Qc (4 # 3)%Q; Q2Qc (5 # 3)%Q] && Nat.eqb (cg_iter s) 2 &&
+              veqb (cg_hist s) [Q2Qc 5%Q; Q2Qc (5 # 4)%Q; Q2Qc 0%Q]
+  | Broke _ => false
+  end = true.
+Proof. exact cg_example. Qed.
+Example C17_dist_cg_run_nonvacuous :
+  match q_cg_run A2 (q_dist_ops [1; 0; 1]) (qv [1; 2]%Z) tol10 10 (qv [0; 0]%Z) with
+  | Done s => veqb (cg_x s) [Q2Qc (4 # 3)%Q; Q2Qc (5 # 3)%Q] && Nat.eqb (cg_iter s) 2
+  | Broke _ => false
+  end = true.
+Proof. exact cg_dist_example. Qed.
+Example C17_bicgstab_run_nonvacuous :
+  match q_bi_run A3 q_seq_ops (qv [1; 2]%Z) tol10 true 1 (qv [0; 0]%Z) with
+  | Done s => Nat.eqb (bi_iter s) 1 && Nat.eqb (length (bi_hist s)) 2
+  | Broke _ => false
+  end = true.
+Proof. exact bicgstab_example. Qed.
+Example C17_pcg_run_nonvacuous :
+  match q_pcg_run A1 [[Q2Qc 1%Q]] (q_dist_ops [1]) (qv [2]%Z) tol10 5 (qv [0]%Z) with
+  | Done s => veqb (pc_x s) [Q2Qc 1%Q] && pc_stop s && Nat.eqb (pc_iter s) 1
+  | Broke _ => false
+  end = true.
+Proof. exact pcg_example. Qed.
+
 Print Assumptions C17_loop_stops_at_first.
+Print Assumptions C17_cg_reports_true_residuals_and_stops_first.
+Print Assumptions C17_cg_exact_start_returns_immediately.
+Print Assumptions C17_cg_spd_never_breaks.
+Print Assumptions C17_cg_energy_identity.
+Print Assumptions C17_cg_energy_monotone.
+Print Assumptions C17_bicgstab_reports_true_residuals_and_stops_first.
+Print Assumptions C17_bicgstab_exact_start_returns_immediately.
+Print Assumptions C17_bicgstab_halfstep_breaks.
+Print Assumptions C17_guarded_norm_is_2norm.
+Print Assumptions C17_pcg_reports_and_stops_first.
+Print Assumptions C17_pcg_exact_start_breaks.
+Print Assumptions C17_dist_kernels_are_those_of_the_assembled_vector.
+Print Assumptions C17_dist_cg_is_seq_cg.
+Print Assumptions C17_dist_bicgstab_is_seq_bicgstab.
+Print Assumptions C17_dist_pcg_is_pcg_on_assembled_vectors.
+Print Assumptions C17_norm_and_inner_product_nonfinite.
+Print Assumptions C17_norm_and_inner_product_finite.
+Print Assumptions C17_csr_operator.
+Print Assumptions C17_bicgstab_halfstep_breakdown_refuted.
+Print Assumptions C17_pcg_exact_start_refuted.
